@@ -75,7 +75,7 @@ Definition no_analysisb (a : list action) : bool := negb (has Sweep a) && negb (
 Record ctx := mkCtx {
   x_data : bool;       (* RPM data stored (observed after the previous command on this fan / initial) *)
   x_map : bool;        (* PWM map stored *)
-  x_settled : bool;    (* a start of this fan completed and no reset / init of it happened since *)
+  x_settled : bool;    (* a start of this fan completed, or a `fan init` of it succeeded, and no reset / later init of it happened since *)
 }.
 Definition tracker := Z -> ctx.
 Definition tupd (t : tracker) (id : Z) (x : ctx) : tracker := fun j => if j =? id then x else t j.
@@ -88,7 +88,8 @@ Definition track (t : tracker) (c : cmd) (o : ostep) : tracker :=
   let s := match c with
            | Start _ => x_settled (t id) || has Regulate (os_acts o)
            | Stop _ => x_settled (t id)
-           | Reset _ | Init _ => false
+           | Reset _ => false
+           | Init _ => negb (has Err (os_acts o))      (* what `fan init` measured is stored: analysed once *)
            end in
   tupd t id (mkCtx (os_data o) (os_map o) s).
 
@@ -206,7 +207,7 @@ Qed.
    sequences), so agreement with the model on a case implies the property on that case ---- *)
 Definition Rel (fl : fleet) (t : tracker) (d : db) : Prop :=
   forall id, x_data (t id) = e_data (d id) /\ x_map (t id) = is_some (e_map (d id))
-             /\ (x_settled (t id) = true -> settled fl d id).
+             /\ (x_settled (t id) = true -> fl id <> None -> calm fl d id).
 
 Lemma in_filter_obs x a : In x (filter observable a) -> In x a.
 Proof. intros H. apply filter_In in H. tauto. Qed.
@@ -232,7 +233,7 @@ Proof.
   - intros K Hlo Hhi X. apply in_filter_obs in X.
     destruct (f_min f) as [lo|] eqn:E1; [|congruence]. destruct (f_max f) as [hi|] eqn:E2; [|congruence].
     exact (start_minmax f cp (d id) lo hi K E1 E2 X).
-  - intros S. apply analysis_free_filter. pose proof (settled_no_analysis fl d id (Rs S)) as Q.
+  - intros S. apply analysis_free_filter. assert (NN : fl id <> None) by congruence. pose proof (calm_no_analysis fl d id (Rs S NN)) as Q.
     unfold acts in Q. now rewrite F in Q.
 Qed.
 
@@ -245,16 +246,19 @@ Proof.
   - cbn [x_data x_map x_settled]. unfold model_step at 1 2. cbn [os_data os_map]. split; [reflexivity|split; [reflexivity|]].
     destruct (R (cmd_id c)) as [_ [_ Rs]].
     destruct c as [j|j|j|j]; cbn [cmd_id] in *; try discriminate.
-    + intros H. apply orb_true_iff in H. destruct H as [H|H].
-      * apply settled_preserved; [discriminate|discriminate|auto].
+    + intros H NN. apply orb_true_iff in H. destruct H as [H|H].
+      * apply calm_preserved; [discriminate|discriminate|auto].
       * apply has_spec in H. unfold model_step in H. cbn [os_acts] in H. apply in_filter_obs in H.
-        now apply settled_after_completed_start.
-    + intros H. apply settled_preserved; [discriminate|discriminate|auto].
+        apply settled_calm. now apply settled_after_completed_start.
+    + intros H NN. apply calm_preserved; [discriminate|discriminate|auto].
+    + intros H NN. apply negb_true_iff in H. apply has_false in H.
+      unfold model_step in H. cbn [os_acts] in H.
+      apply calm_after_ok_init; [exact NN|]. intros E. apply H. apply filter_In. split; [exact E|reflexivity].
   - destruct (R id) as [Rd [Rm Rs]].
     assert (N : cmd_id c <> id) by congruence.
     pose proof (cmd_id_neq c id N) as Q. rewrite (step_isolated fl d c id Q).
-    split; [exact Rd|split; [exact Rm|]]. intros S. destruct Q as [_ [_ [Q3 Q4]]].
-    now apply settled_preserved; auto.
+    split; [exact Rd|split; [exact Rm|]]. intros S NN. destruct Q as [_ [_ [Q3 Q4]]].
+    now apply calm_preserved; auto.
 Qed.
 
 Lemma model_annot_holds fl cs : forall t d, Rel fl t d ->
